@@ -599,6 +599,591 @@ theorem reverseSweep_swapEquiv {t t' : Tape R} (h : SwapEquiv t t') (y : Nat) :
 
 end SweepSwap
 
+/-! ### `variables`, `reset`: blocks of nullary entries -/
+
+section Nullary
+variable {R : Type} [Zero R]
+
+/-- `n` nullary entries for the positions `start, start+1, …` -/
+def nullaries (start n : Nat) : Tape R :=
+  (List.range n).map fun i => ⟨start + i, start + i, 0, 0⟩
+
+theorem nullaries_succ (start n : Nat) :
+    (nullaries start (n + 1) : Tape R) = ⟨start, start, 0, 0⟩ :: nullaries (start + 1) n := by
+  simp only [nullaries, List.range_succ_eq_map, List.map_cons, List.map_map, Nat.add_zero]
+  congr 1
+  apply List.map_congr_left
+  intro i _
+  simp only [Function.comp]
+  congr 1 <;> omega
+
+theorem incrementingIndexes_succ (start n : Nat) :
+    incrementingIndexes start (n + 1) = start :: incrementingIndexes (start + 1) n := by
+  simp only [incrementingIndexes, List.range_succ_eq_map, List.map_cons, List.map_map, Nat.add_zero]
+  congr 1
+  apply List.map_congr_left
+  intro i _
+  simp only [Function.comp]
+  omega
+
+theorem foldl_snoc_map {α β : Type} (f : α → β) (l : List α) (t : List β) :
+    l.foldl (fun acc i => acc ++ [f i]) t = t ++ l.map f := by
+  induction l generalizing t with
+  | nil => simp
+  | cons a l ih => simp [ih]
+
+theorem appendNullaryRepeating_eq (t : Tape R) (n : Nat) :
+    t.appendNullaryRepeating n = (t.length, t ++ nullaries t.length n) := by
+  unfold Tape.appendNullaryRepeating nullaries
+  simp only [foldl_snoc_map]
+
+/-- `Record::variable` element by element allocates the block `append_nullary_repeating` does -/
+theorem variablesRecs_eq (h : Nat) (vals : List R) (w : World R) :
+    variablesRecs h vals w
+      = (recsOf (some h) (vals.zip (incrementingIndexes (w h).length vals.length)),
+         w.update h (w h ++ nullaries (w h).length vals.length)) := by
+  induction vals generalizing w with
+  | nil => simp [variablesRecs, nullaries, incrementingIndexes]
+  | cons x vals ih =>
+    simp only [variablesRecs, Rec.mkVar, Tape.appendNullary, ih, update_same, update_update,
+      List.length_cons, List.length_append, List.length_nil, Nat.zero_add,
+      incrementingIndexes_succ, nullaries_succ, List.zip_cons_cons, recsOf_cons,
+      List.append_assoc, List.cons_append, List.nil_append]
+
+/-- `Record::reset` element by element allocates the block the container `reset` does -/
+theorem resetRecs_some (h : Nat) (es : List (R × Nat)) (w : World R) :
+    resetRecs (recsOf (some h) es) w
+      = (recsOf (some h) ((es.zip (incrementingIndexes (w h).length es.length)).map
+            fun p => (p.1.1, p.2)),
+         w.update h (w h ++ nullaries (w h).length es.length)) := by
+  unfold resetRecs
+  induction es generalizing w with
+  | nil => simp [Cont.mapRecs, nullaries, incrementingIndexes]
+  | cons e es ih =>
+    simp only [recsOf_cons, Cont.mapRecs, Rec.reset, Tape.appendNullary, ih, update_same,
+      update_update, List.length_cons, List.length_append, List.length_nil, Nat.zero_add,
+      incrementingIndexes_succ, nullaries_succ, List.zip_cons_cons, List.map_cons,
+      List.append_assoc, List.cons_append, List.nil_append]
+
+theorem resetRecs_none (es : List (R × Nat)) (w : World R) :
+    resetRecs (recsOf none es) w = (recsOf none es, w) := by
+  unfold resetRecs
+  induction es with
+  | nil => rfl
+  | cons e es ih => simp only [recsOf_cons, Cont.mapRecs, Rec.reset, ih]
+
+theorem variables_eq (h : Nat) (shape : Shape String) (vals : List R) (w : World R)
+    (hlen : vals.length = elements shape) :
+    asRecs (Cont.variables h shape vals w) = variablesRecs h vals w := by
+  simp only [Cont.variables, asRecs, appendNullaryRepeating_eq, variablesRecs_eq, toRecs_eq, hlen]
+
+theorem reset_eq (c : Cont R) (w : World R) (hlen : c.elems.length = elements c.shape) :
+    asRecs (c.reset w) = resetRecs c.toRecs w := by
+  unfold Cont.reset
+  cases hh : c.history with
+  | none => simp only [asRecs, toRecs_eq, hh, resetRecs_none]
+  | some h =>
+    simp only [asRecs, toRecs_eq, hh, resetRecs_some, appendNullaryRepeating_eq, Cont.total, hlen]
+
+end Nullary
+
+/-! ### positions handed out, well-formedness, cross-tape rejection -/
+
+section Positions
+variable {R : Type} [Zero R]
+
+theorem batchUnary_spec (fx dfx : R → R) (es : List (R × Nat)) (t : Tape R) :
+    (Tape.batchUnary fx dfx es t).1.map (·.2) = incrementingIndexes t.length es.length
+      ∧ (Tape.batchUnary fx dfx es t).2.length = t.length + es.length := by
+  induction es generalizing t with
+  | nil => simp [Tape.batchUnary, incrementingIndexes]
+  | cons e es ih =>
+    obtain ⟨x, p⟩ := e
+    have := ih (t ++ [⟨p, t.length, dfx x, 0⟩])
+    simp only [List.length_append, List.length_cons, List.length_nil, Nat.zero_add] at this
+    simp only [Tape.batchUnary, Tape.appendUnary, List.map_cons, List.length_cons,
+      incrementingIndexes_succ, this.1, this.2]
+    exact ⟨trivial, by omega⟩
+
+theorem batchX_spec (f dfx : R → R → R) (ps : List ((R × Nat) × (R × Nat))) (t : Tape R) :
+    (Tape.batchX f dfx ps t).1.map (·.2) = incrementingIndexes t.length ps.length
+      ∧ (Tape.batchX f dfx ps t).2.length = t.length + ps.length := by
+  induction ps generalizing t with
+  | nil => simp [Tape.batchX, incrementingIndexes]
+  | cons e es ih =>
+    obtain ⟨⟨x, p⟩, ⟨y, q⟩⟩ := e
+    have := ih (t ++ [⟨p, t.length, dfx x y, 0⟩])
+    simp only [List.length_append, List.length_cons, List.length_nil, Nat.zero_add] at this
+    simp only [Tape.batchX, Tape.appendUnary, List.map_cons, List.length_cons,
+      incrementingIndexes_succ, this.1, this.2]
+    exact ⟨trivial, by omega⟩
+
+theorem batchY_spec (f dfy : R → R → R) (ps : List ((R × Nat) × (R × Nat))) (t : Tape R) :
+    (Tape.batchY f dfy ps t).1.map (·.2) = incrementingIndexes t.length ps.length
+      ∧ (Tape.batchY f dfy ps t).2.length = t.length + ps.length := by
+  induction ps generalizing t with
+  | nil => simp [Tape.batchY, incrementingIndexes]
+  | cons e es ih =>
+    obtain ⟨⟨x, p⟩, ⟨y, q⟩⟩ := e
+    have := ih (t ++ [⟨q, t.length, dfy x y, 0⟩])
+    simp only [List.length_append, List.length_cons, List.length_nil, Nat.zero_add] at this
+    simp only [Tape.batchY, Tape.appendUnary, List.map_cons, List.length_cons,
+      incrementingIndexes_succ, this.1, this.2]
+    exact ⟨trivial, by omega⟩
+
+theorem batchBoth_spec (f dfx dfy : R → R → R) (ps : List ((R × Nat) × (R × Nat))) (t : Tape R) :
+    (Tape.batchBoth f dfx dfy ps t).1.map (·.2) = incrementingIndexes t.length ps.length
+      ∧ (Tape.batchBoth f dfx dfy ps t).2.length = t.length + ps.length := by
+  induction ps generalizing t with
+  | nil => simp [Tape.batchBoth, incrementingIndexes]
+  | cons e es ih =>
+    obtain ⟨⟨x, p⟩, ⟨y, q⟩⟩ := e
+    have := ih (t ++ [⟨p, q, dfx x y, dfy x y⟩])
+    simp only [List.length_append, List.length_cons, List.length_nil, Nat.zero_add] at this
+    simp only [Tape.batchBoth, Tape.appendBinary, List.map_cons, List.length_cons,
+      incrementingIndexes_succ, this.1, this.2]
+    exact ⟨trivial, by omega⟩
+
+theorem incrementingIndexes_length (s n : Nat) : (incrementingIndexes s n).length = n := by
+  simp [incrementingIndexes]
+
+/-- the tape a result lives on had this many entries before the operation -/
+def lenBefore (w : World R) : Option Nat → Nat
+  | some h => (w h).length
+  | none => 0
+
+/-- `c'` occupies the next unused positions of its tape: a contiguous block starting at the
+    number of entries the tape had, one new entry per element; constants touch nothing -/
+def NextUnused (w : World R) (c' : Cont R) (w' : World R) : Prop :=
+  match c'.history with
+  | none => w' = w
+  | some h =>
+    c'.indexes = incrementingIndexes (w h).length c'.elems.length
+      ∧ (w' h).length = (w h).length + c'.elems.length
+      ∧ ∀ j, j ≠ h → w' j = w j
+
+theorem update_other (w : World R) (h j : Nat) (t : Tape R) (hj : j ≠ h) :
+    (w.update h t) j = w j := by simp [World.update, hj]
+
+theorem unary_nextUnused (c : Cont R) (fx dfx : R → R) (w : World R) :
+    NextUnused w (c.unary fx dfx w).1 (c.unary fx dfx w).2 := by
+  unfold Cont.unary NextUnused
+  cases hh : c.history with
+  | none => simp [Cont.constants]
+  | some h =>
+    have hs := batchUnary_spec fx dfx c.elems (w h)
+    have hl : (Tape.batchUnary fx dfx c.elems (w h)).1.length = c.elems.length := by
+      have := congrArg List.length hs.1
+      simpa [incrementingIndexes_length] using this
+    simp only [Cont.indexes, hs.1, hl, update_same, hs.2, true_and]
+    exact fun j hj => update_other w h j _ hj
+
+theorem unary_wf (c : Cont R) (fx dfx : R → R) (w : World R) (hc : c.WF) :
+    (c.unary fx dfx w).1.WF := by
+  unfold Cont.unary
+  cases hh : c.history with
+  | none =>
+    refine ⟨by simpa [Cont.constants] using hc.length_eq, ?_, ?_⟩
+    · simpa [Cont.constants] using hc.nonempty
+    · intro _ e he
+      simp only [Cont.constants, List.map_map, List.mem_map] at he
+      obtain ⟨_, _, rfl⟩ := he
+      rfl
+  | some h =>
+    have hs := batchUnary_spec fx dfx c.elems (w h)
+    have hl : (Tape.batchUnary fx dfx c.elems (w h)).1.length = c.elems.length := by
+      have := congrArg List.length hs.1
+      simpa [incrementingIndexes_length] using this
+    refine ⟨by simpa [hl] using hc.length_eq, ?_, by simp⟩
+    intro hnil
+    have h0 : c.elems.length = 0 := by
+      rw [← hl]; simp only at hnil; rw [hnil]; rfl
+    exact hc.nonempty (List.eq_nil_of_length_eq_zero h0)
+
+theorem wf_of_indexes (shape : Shape String) (zs : List (R × Nat)) (h : Nat) (s n : Nat)
+    (hidx : zs.map (·.2) = incrementingIndexes s n) (hn : n = elements shape) (hpos : n ≠ 0) :
+    (⟨shape, zs, some h⟩ : Cont R).WF := by
+  have hl : zs.length = n := by
+    have := congrArg List.length hidx
+    simpa [incrementingIndexes_length] using this
+  refine ⟨by simp [hl, hn], ?_, by simp⟩
+  intro hnil
+  simp only at hnil
+  rw [hnil] at hl
+  exact hpos hl.symm
+
+theorem binary_ok_spec (a b : Cont R) (f dfx dfy : R → R → R) (w : World R) (ha : a.WF) (hb : b.WF)
+    (c' : Cont R) (w' : World R) (hok : a.binary b f dfx dfy w = .ok (c', w')) :
+    c'.WF ∧ NextUnused w c' w' ∧ c'.shape = a.shape
+      ∧ c'.history = Cont.pickHistory a.history b.history := by
+  unfold Cont.binary at hok
+  by_cases hs : a.shape = b.shape
+  · have hlen : (a.elems.zip b.elems).length = elements a.shape := by
+      simp [List.length_zip, ha.length_eq, hb.length_eq, hs]
+    have hpos : elements a.shape ≠ 0 := by
+      rw [← ha.length_eq]
+      exact fun h0 => ha.nonempty (List.eq_nil_of_length_eq_zero h0)
+    simp only [hs, ne_eq, not_true_eq_false, if_false] at hok
+    cases hha : a.history <;> cases hhb : b.history <;> simp only [hha, hhb] at hok
+    · injection hok with hok
+      injection hok with h1 h2
+      subst h1 h2
+      refine ⟨⟨?_, ?_, ?_⟩, ?_, hs.symm, rfl⟩
+      · simp [Cont.constants, hlen, hs]
+      · intro hnil
+        have : (a.elems.zip b.elems).length = 0 := by
+          simp only [Cont.constants, List.map_eq_nil_iff] at hnil
+          rw [hnil]; rfl
+        omega
+      · intro _ e he
+        simp only [Cont.constants, List.map_map, List.mem_map] at he
+        obtain ⟨_, _, rfl⟩ := he
+        rfl
+      · simp [NextUnused, Cont.constants]
+    · rename_i h
+      injection hok with hok
+      injection hok with h1 h2
+      subst h1 h2
+      have hsp := batchY_spec f dfy (a.elems.zip b.elems) (w h)
+      have hl : (Tape.batchY f dfy (a.elems.zip b.elems) (w h)).1.length = (a.elems.zip b.elems).length := by
+        have := congrArg List.length hsp.1
+        simpa [incrementingIndexes_length] using this
+      refine ⟨wf_of_indexes _ _ h _ _ hsp.1 (by rw [hlen, hs]) (by rw [hlen]; exact hpos), ?_, hs.symm, rfl⟩
+      simp only [NextUnused, Cont.indexes, hsp.1, hl, update_same, hsp.2, true_and]
+      exact fun j hj => update_other w h j _ hj
+    · rename_i h
+      injection hok with hok
+      injection hok with h1 h2
+      subst h1 h2
+      have hsp := batchX_spec f dfx (a.elems.zip b.elems) (w h)
+      have hl : (Tape.batchX f dfx (a.elems.zip b.elems) (w h)).1.length = (a.elems.zip b.elems).length := by
+        have := congrArg List.length hsp.1
+        simpa [incrementingIndexes_length] using this
+      refine ⟨wf_of_indexes _ _ h _ _ hsp.1 (by rw [hlen, hs]) (by rw [hlen]; exact hpos), ?_, hs.symm, rfl⟩
+      simp only [NextUnused, Cont.indexes, hsp.1, hl, update_same, hsp.2, true_and]
+      exact fun j hj => update_other w h j _ hj
+    · rename_i h h'
+      by_cases hne : h = h'
+      · subst hne
+        simp only [ne_eq, not_true_eq_false, if_false] at hok
+        injection hok with hok
+        injection hok with h1 h2
+        subst h1 h2
+        have hsp := batchBoth_spec f dfx dfy (a.elems.zip b.elems) (w h)
+        have hl : (Tape.batchBoth f dfx dfy (a.elems.zip b.elems) (w h)).1.length = (a.elems.zip b.elems).length := by
+          have := congrArg List.length hsp.1
+          simpa [incrementingIndexes_length] using this
+        refine ⟨wf_of_indexes _ _ h _ _ hsp.1 (by rw [hlen, hs]) (by rw [hlen]; exact hpos), ?_, hs.symm, rfl⟩
+        simp only [NextUnused, Cont.indexes, hsp.1, hl, update_same, hsp.2, true_and]
+        exact fun j hj => update_other w h j _ hj
+      · simp [hne] at hok
+  · simp [hs] at hok
+
+theorem binary_cross (a b : Cont R) (f dfx dfy : R → R → R) (w : World R) (h h' : Nat)
+    (hha : a.history = some h) (hhb : b.history = some h') (hne : h ≠ h') :
+    a.binary b f dfx dfy w = .panic .explicit := by
+  unfold Cont.binary
+  split
+  · rfl
+  · simp [hha, hhb, hne]
+
+end Positions
+
+/-! ### records in, records out -/
+
+section Iter
+variable {R : Type}
+
+theorem areExactSameList_eq (a b : Option Nat) : areExactSameList a b = true ↔ a = b := by
+  cases a <;> cases b <;> simp [areExactSameList]
+
+theorem lastDifferent_none (first : Option Nat) (recs : List (Rec R)) (acc : Option (Option Nat)) :
+    Cont.lastDifferent first recs acc = none ↔ acc = none ∧ ∀ r ∈ recs, r.history = first := by
+  induction recs generalizing acc with
+  | nil => simp [Cont.lastDifferent]
+  | cons r rest ih =>
+    simp only [Cont.lastDifferent, ih, List.mem_cons, forall_eq_or_imp]
+    by_cases hr : areExactSameList first r.history = true
+    · rw [if_pos hr]
+      have := (areExactSameList_eq _ _).mp hr
+      subst this
+      simp
+    · have hne : ¬ r.history = first := fun e => hr ((areExactSameList_eq _ _).mpr e.symm)
+      simp [hr, hne]
+
+theorem collectComponents_ok (recs : List (Rec R)) (hist : Option Nat) (numbers : List (R × Nat))
+    (h : Cont.collectComponents recs = .ok (hist, numbers)) :
+    recs ≠ [] ∧ recsOf hist numbers = recs := by
+  cases recs with
+  | nil => simp [Cont.collectComponents] at h
+  | cons r rest =>
+    simp only [Cont.collectComponents] at h
+    cases hl : Cont.lastDifferent r.history rest none with
+    | some later => simp [hl] at h
+    | none =>
+      simp only [hl] at h
+      injection h with h
+      injection h with h1 h2
+      subst h1 h2
+      have hall := ((lastDifferent_none _ _ _).mp hl).2
+      refine ⟨by simp, ?_⟩
+      simp only [recsOf, List.map_cons, List.map_map]
+      congr 1
+      rw [List.map_congr_left (g := id)]
+      · simp
+      · intro x hx
+        simp only [Function.comp, id]
+        cases x with
+        | mk n hst i =>
+          have := hall ⟨n, hst, i⟩ hx
+          simp only at this
+          simp [this]
+
+theorem collectComponents_recsOf (hist : Option Nat) (es : List (R × Nat)) (hne : es ≠ []) :
+    Cont.collectComponents (recsOf hist es) = .ok (hist, es) := by
+  cases es with
+  | nil => exact absurd rfl hne
+  | cons e es =>
+    have hl : Cont.lastDifferent hist (recsOf hist es) none = none := by
+      rw [lastDifferent_none]
+      refine ⟨rfl, ?_⟩
+      intro r hr
+      simp only [recsOf, List.mem_map] at hr
+      obtain ⟨_, _, rfl⟩ := hr
+      rfl
+    simp only [recsOf_cons, Cont.collectComponents, hl]
+    simp [recsOf, List.map_map, Function.comp_def]
+
+/-- an iterator with a record whose tape differs from the first record's is rejected -/
+theorem collectComponents_inconsistent (r : Rec R) (rest : List (Rec R))
+    (hbad : ∃ x ∈ rest, x.history ≠ r.history) :
+    ∃ later, Cont.collectComponents (r :: rest) = .error (.inconsistent r.history later) := by
+  simp only [Cont.collectComponents]
+  cases hl : Cont.lastDifferent r.history rest none with
+  | some later => exact ⟨later, rfl⟩
+  | none =>
+    obtain ⟨x, hx, hne⟩ := hbad
+    exact absurd (((lastDifferent_none _ _ _).mp hl).2 x hx) hne
+
+theorem mapRecsIdx_length (f : Nat → Rec R → World R → Rec R × World R) (k : Nat)
+    (recs : List (Rec R)) (w : World R) : (Cont.mapRecsIdx f k recs w).1.length = recs.length := by
+  induction recs generalizing k w with
+  | nil => rfl
+  | cons r rest ih => simp [Cont.mapRecsIdx, ih]
+
+end Iter
+
+/-! ### matrix multiplication -/
+
+section Matmul
+variable {R : Type} [Field R]
+
+/-- the record of one stored element -/
+def recOf (h : Option Nat) (e : R × Nat) : Rec R := ⟨e.1, h, e.2⟩
+
+/-- the two records of a zipped (row element, column element) pair -/
+def pairRecs (ha hb : Option Nat) (p : (R × Nat) × (R × Nat)) : Rec R × Rec R :=
+  (recOf ha p.1, recOf hb p.2)
+
+theorem recsOf_eq_map (h : Option Nat) (es : List (R × Nat)) : recsOf h es = es.map (recOf h) := rfl
+
+theorem rowOf_map {α β : Type} (f : α → β) (l : List α) (n i : Nat) :
+    Cont.rowOf (l.map f) n i = (Cont.rowOf l n i).map f := by
+  simp [Cont.rowOf, List.map_take, List.map_drop]
+
+theorem colOf_map {α β : Type} (f : α → β) (l : List α) (n k j : Nat) :
+    Cont.colOf (l.map f) n k j = (Cont.colOf l n k j).map f := by
+  simp only [Cont.colOf, List.map_filterMap, List.getElem?_map]
+
+theorem zip_recs (ha hb : Option Nat) (xs ys : List (R × Nat)) :
+    (recsOf ha xs).zip (recsOf hb ys) = (xs.zip ys).map (pairRecs ha hb) := by
+  simp only [recsOf_eq_map, List.zip_map]
+  rfl
+
+/-- which side has a tape, as the model's `entryFor` sees it -/
+def sideHist (v : Bool) (h : Nat) : Option Nat := if v then some h else none
+
+theorem mul_entry (lv rv : Bool) (hor : (lv || rv) = true) (h : Nat) (p : (R × Nat) × (R × Nat))
+    (w : World R) :
+    (recOf (sideHist lv h) p.1).mul (recOf (sideHist rv h) p.2) w
+      = .ok (recOf (some h) (Cont.productEntry lv rv p (w h)).1,
+             w.update h (Cont.productEntry lv rv p (w h)).2) := by
+  obtain ⟨⟨x, i⟩, ⟨y, j⟩⟩ := p
+  cases lv <;> cases rv
+  · simp at hor
+  · simp [recOf, sideHist, Rec.mul, Rec.sameList, Rec.mulNum, Rec.pushUnary, Tape.appendUnary,
+      Cont.productEntry, Multiplication.function, Multiplication.dx, Multiplication.dy, mul_comm]
+  · simp [recOf, sideHist, Rec.mul, Rec.sameList, Rec.mulNum, Rec.pushUnary, Tape.appendUnary,
+      Cont.productEntry, Multiplication.function, Multiplication.dx, Multiplication.dy]
+  · simp [recOf, sideHist, Rec.mul, Rec.sameList, Rec.pushBinary, Tape.appendBinary,
+      Cont.productEntry, Multiplication.function, Multiplication.dx, Multiplication.dy]
+
+theorem add_entry (h : Nat) (acc q : R × Nat) (w : World R) :
+    (recOf (some h) acc).add (recOf (some h) q) w
+      = .ok (recOf (some h) (Addition.function acc.1 q.1, (w h).length),
+             w.update h ((w h).appendBinary acc.2 (Addition.dx acc.1 q.1) q.2
+               (Addition.dy acc.1 q.1)).2) := by
+  simp [recOf, Rec.add, Rec.sameList, Rec.pushBinary, Tape.appendBinary]
+
+theorem reduce_eq (lv rv : Bool) (hor : (lv || rv) = true) (h : Nat) (acc : R × Nat)
+    (ps : List ((R × Nat) × (R × Nat))) (w : World R) :
+    reduceRecs (recOf (some h) acc) (ps.map (pairRecs (sideHist lv h) (sideHist rv h))) w
+      = .ok (recOf (some h) (Cont.reduceProducts (Cont.productEntry lv rv) acc ps (w h)).1,
+             w.update h (Cont.reduceProducts (Cont.productEntry lv rv) acc ps (w h)).2) := by
+  induction ps generalizing acc w with
+  | nil => simp [reduceRecs, Cont.reduceProducts]
+  | cons p ps ih =>
+    simp only [List.map_cons, reduceRecs, pairRecs, mul_entry lv rv hor h p w, add_entry,
+      update_same, update_update, ih, Cont.reduceProducts, Tape.appendBinary]
+
+theorem scalarProduct_eq (lv rv : Bool) (hor : (lv || rv) = true) (h : Nat)
+    (ps : List ((R × Nat) × (R × Nat))) (w : World R) :
+    scalarProductRecs (ps.map (pairRecs (sideHist lv h) (sideHist rv h))) w
+      = (Cont.scalarProductOnTape (Cont.productEntry lv rv) ps (w h)).map
+          fun r => (recOf (some h) r.1, w.update h r.2) := by
+  cases ps with
+  | nil => rfl
+  | cons p ps =>
+    simp only [List.map_cons, scalarProductRecs, pairRecs, mul_entry lv rv hor h p w,
+      reduce_eq lv rv hor, update_same, update_update, Cont.scalarProductOnTape, Outcome.map]
+
+theorem cells_eq (lv rv : Bool) (hor : (lv || rv) = true) (h : Nat) (as bs : List (R × Nat))
+    (n l : Nat) (cells : List (Nat × Nat)) (w : World R) :
+    matmulRecsCells (recsOf (sideHist lv h) as) (recsOf (sideHist rv h) bs) n l cells w
+      = (Cont.matmulCells (Cont.productEntry lv rv) as bs n l cells (w h)).map
+          fun r => (recsOf (some h) r.1, w.update h r.2) := by
+  induction cells generalizing w with
+  | nil => simp [matmulRecsCells, Cont.matmulCells, Outcome.map]
+  | cons c cells ih =>
+    obtain ⟨i, j⟩ := c
+    simp only [matmulRecsCells, Cont.matmulCells, recsOf_eq_map, rowOf_map, colOf_map]
+    simp only [← recsOf_eq_map, zip_recs, scalarProduct_eq lv rv hor]
+    cases Cont.scalarProductOnTape (Cont.productEntry lv rv)
+        ((Cont.rowOf as n i).zip (Cont.colOf bs n l j)) (w h) with
+    | panic k => rfl
+    | ok r =>
+      obtain ⟨x, t1⟩ := r
+      simp only [Outcome.map, ih, update_same, update_update]
+      cases Cont.matmulCells (Cont.productEntry lv rv) as bs n l cells t1 with
+      | panic k => rfl
+      | ok r2 => rfl
+
+/-! constants only -/
+
+theorem reduce_const (s : R) (ps : List ((R × Nat) × (R × Nat))) (w : World R) :
+    reduceRecs (Rec.constant s) (ps.map (pairRecs none none)) w
+      = .ok (Rec.constant ((ps.map fun p => (p.1.1, p.2.1)).foldl (fun acc p => acc + p.1 * p.2) s), w) := by
+  induction ps generalizing s with
+  | nil => rfl
+  | cons p ps ih =>
+    simp only [List.map_cons, reduceRecs, pairRecs, recOf, Rec.mul, Rec.sameList, Rec.add,
+      Rec.constant, Bool.not_true, Bool.false_eq_true, if_false, List.foldl_cons,
+      Multiplication.function, Addition.function]
+    exact ih _
+
+theorem scalarProduct_const (ps : List ((R × Nat) × (R × Nat))) (w : World R) :
+    scalarProductRecs (ps.map (pairRecs none none)) w
+      = (Cont.plainScalarProduct (ps.map fun p => (p.1.1, p.2.1))).map
+          fun x => (recOf none (x, 0), w) := by
+  cases ps with
+  | nil => rfl
+  | cons p ps =>
+    simp only [List.map_cons, scalarProductRecs, pairRecs, recOf, Rec.mul, Rec.sameList,
+      Bool.not_true, Bool.false_eq_true, if_false, Cont.plainScalarProduct, Outcome.map,
+      Multiplication.function]
+    exact reduce_const _ ps w
+
+theorem cells_const (as bs : List (R × Nat)) (n l : Nat) (cells : List (Nat × Nat)) (w : World R) :
+    matmulRecsCells (recsOf none as) (recsOf none bs) n l cells w
+      = (Cont.matmulPlain as bs n l cells).map fun xs => (recsOf none xs, w) := by
+  induction cells with
+  | nil => rfl
+  | cons c cells ih =>
+    obtain ⟨i, j⟩ := c
+    simp only [matmulRecsCells, Cont.matmulPlain, recsOf_eq_map, rowOf_map, colOf_map]
+    simp only [← recsOf_eq_map, zip_recs, scalarProduct_const]
+    cases Cont.plainScalarProduct
+        (((Cont.rowOf as n i).zip (Cont.colOf bs n l j)).map fun p => (p.1.1, p.2.1)) with
+    | panic k => rfl
+    | ok x =>
+      simp only [Outcome.map, ih]
+      cases Cont.matmulPlain as bs n l cells with
+      | panic k => rfl
+      | ok xs => rfl
+
+theorem cellsOf_pos (m l : Nat) (hm : 0 < m) (hl : 0 < l) :
+    ∃ rest, Cont.cellsOf m l = (0, 0) :: rest := by
+  obtain ⟨m', rfl⟩ := Nat.exists_eq_succ_of_ne_zero (Nat.pos_iff_ne_zero.mp hm)
+  obtain ⟨l', rfl⟩ := Nat.exists_eq_succ_of_ne_zero (Nat.pos_iff_ne_zero.mp hl)
+  simp [Cont.cellsOf, List.range_succ_eq_map]
+
+theorem first_pair {α β : Type} (as : List α) (bs : List β) (n l : Nat) (hn : 0 < n)
+    (ha : as ≠ []) (hb : bs ≠ []) :
+    ∃ x y rest, (Cont.rowOf as n 0).zip (Cont.colOf bs n l 0) = (x, y) :: rest := by
+  obtain ⟨n', rfl⟩ := Nat.exists_eq_succ_of_ne_zero (Nat.pos_iff_ne_zero.mp hn)
+  cases as with
+  | nil => exact absurd rfl ha
+  | cons a as =>
+    cases bs with
+    | nil => exact absurd rfl hb
+    | cons b bs =>
+      refine ⟨a, b, ?_⟩
+      simp [Cont.rowOf, Cont.colOf, List.range_succ_eq_map]
+
+/-- with two variables of two different tapes the very first scalar multiplication panics -/
+theorem matmulRecs_cross (h h' : Nat) (hne : h ≠ h') (as bs : List (R × Nat)) (m n l : Nat)
+    (hm : 0 < m) (hn : 0 < n) (hl : 0 < l) (ha : as ≠ []) (hb : bs ≠ []) (w : World R) :
+    matmulRecs (recsOf (some h) as) (recsOf (some h') bs) m n l w = .panic .explicit := by
+  obtain ⟨rest, hc⟩ := cellsOf_pos m l hm hl
+  obtain ⟨x, y, rest', hp⟩ := first_pair as bs n l hn ha hb
+  unfold matmulRecs
+  rw [hc]
+  simp only [matmulRecsCells, recsOf_eq_map, rowOf_map, colOf_map]
+  simp only [← recsOf_eq_map, zip_recs, hp, List.map_cons, scalarProductRecs, pairRecs, recOf,
+    Rec.mul, Rec.sameList]
+  simp [hne]
+
+theorem matmulCore_eq (a b : Cont R) (m n l : Nat) (outShape : Shape String) (w : World R)
+    (hsame : areSameList a.history b.history = true) :
+    (Cont.matmulCore (Cont.entryFor a b) a b m n l outShape w).map asRecs
+      = matmulRecs a.toRecs b.toRecs m n l w := by
+  unfold Cont.matmulCore matmulRecs Cont.entryFor
+  cases hha : a.history with
+  | none =>
+    cases hhb : b.history with
+    | none =>
+      simp only [Cont.pickHistory, toRecs_eq, hha, hhb, cells_const]
+      cases Cont.matmulPlain a.elems b.elems n l (Cont.cellsOf m l) with
+      | panic k => rfl
+      | ok xs => rfl
+    | some h =>
+      have := cells_eq false true rfl h a.elems b.elems n l (Cont.cellsOf m l) w
+      simp only [sideHist, if_true, if_false, Bool.false_eq_true] at this
+      simp only [Cont.pickHistory, toRecs_eq, hha, hhb, Option.isSome_none, Option.isSome_some, this]
+      cases Cont.matmulCells (Cont.productEntry false true) a.elems b.elems n l (Cont.cellsOf m l) (w h) with
+      | panic k => rfl
+      | ok r => rfl
+  | some h =>
+    cases hhb : b.history with
+    | none =>
+      have := cells_eq true false rfl h a.elems b.elems n l (Cont.cellsOf m l) w
+      simp only [sideHist, if_true, if_false, Bool.false_eq_true] at this
+      simp only [Cont.pickHistory, toRecs_eq, hha, hhb, Option.isSome_none, Option.isSome_some, this]
+      cases Cont.matmulCells (Cont.productEntry true false) a.elems b.elems n l (Cont.cellsOf m l) (w h) with
+      | panic k => rfl
+      | ok r => rfl
+    | some h' =>
+      have hh : h = h' := by simpa [areSameList, hha, hhb] using hsame
+      subst hh
+      have := cells_eq true true rfl h a.elems b.elems n l (Cont.cellsOf m l) w
+      simp only [sideHist, if_true] at this
+      simp only [Cont.pickHistory, toRecs_eq, hha, hhb, Option.isSome_some, this]
+      cases Cont.matmulCells (Cont.productEntry true true) a.elems b.elems n l (Cont.cellsOf m l) (w h) with
+      | panic k => rfl
+      | ok r => rfl
+
+end Matmul
+
 section Catalogue
 variable {R : Type} [Field R] [RealFns R]
 
